@@ -24,6 +24,10 @@ C(TF + ".mtime", params=SELF, result="int", kind="axiom", raises={'Exception': {
 C(TF + ".read", params=SELF, result="str", kind="axiom", raises={'Exception': {}},
   notes="external: current content of the file; may fail (I/O, decoding)")
 C(TF + ".cook", params={"self": "rec[%s]" % TF, "body": "str"},
+  # C14 (call-site obligation of cook_check): compilation starts with the flag DOWN; it goes up only
+  # as cook()'s last step, after the render functions are installed (cook.publication_order), so no
+  # other thread ever sees "compiled" before there is something to render with
+  requires=["not self._cooked"],
   modifies=["self._cooked"], ensures=["self._cooked"], kind="assumed-here",
   raises={'Exception': {'ensures': ["self._cooked == old(self._cooked)"]}},
   notes="BaseTemplate.cook sets _cooked last and nowhere else (verified separately: "
